@@ -1,11 +1,13 @@
 # C12 — bounded, transparent decompression. KERNEL, GEN, HARNESS, PROFILE_MODEL are injected by lib/props.py
 PROPS = {
     "C12": dict(
-        model_files=["Base", "Time", "Types", "SchemaDefs", "ConcDefs", "Generated", "Deflate"],
+        model_files=["Base", "Time", "Types", "SchemaDefs", "ConcDefs", "Generated", "Deflate",
+                     "Xml", "GenPrelude", "GenPreludeD", "GenPreludeT", "GenPreludeDeflate", "GenDeflate", "P_GenDeflate"],
         trusted_base=[KERNEL, GEN, HARNESS,
                       "hand-written model Deflate.v (maybeDeflate incl. the int64 read limit, parseResponse, the limit argument of each entry point) tied to decode_response.go / decode_logout_request.go by the correspondence run; the per-entry-point limit table is hand-written (gen/ does not extract call arguments) and pinned by spec-oracle cases at limit-1 / limit / limit+1 on every entry point",
                       "inflate oracle: io.ReadAll(io.LimitReader(flate.NewReader(..), n)) for n > 0 is a Section variable (bytes read, error flag); theorems hold for every oracle; the only thing assumed of Go is that a Reader cannot store more than len(p) bytes into p (take_z in limit_read_all, the identity for tabled answers); the correspondence run answers the oracle with compress/flate itself",
                       "etree.ReadFromBytes, rtvalidator.Validate, xml.Unmarshal, base64 and 'the rest of each entry point' are oracles (tables computed by running them on the raw bytes)",
+                      "source tie (DESIGN.md 2a, unit GenDeflate): the bodies of maybeDeflate, parseResponse, DecodeUnverifiedBaseResponse, DecodeUnverifiedLogoutResponse are translated from decode_response.go on every run (coq/GenDeflate.v) and proved equal to Deflate.v for all inputs (P_GenDeflate.v), error values included. Trusted there: the Go-subset semantics (GenPrelude.v, GenPreludeDeflate.v: int64 + as wrap64, a func-typed parameter / function literal as a transformer of the state it captures, symbolic io.Reader stacks read exactly once) and the bindings of gen/unit_Deflate.go (io.ReadAll over LimitReader(flate.NewReader(bytes.NewReader d), n) = Deflate.limit_read_all; doc.ReadFromBytes on an empty document, rtvalidator.Validate, xml.Unmarshal into a zero struct = oracles giving the value left behind and the error; base64 = Escape.base64_decode)",
                       "c_defaultMaxDecompressedResponseSize is re-extracted from the source on every run; C12_default_limit states it equals 5 MiB"],
         assumptions=["allocation is MEASURED, not proved: runtime.MemStats.TotalAlloc delta around each call with GC off, required <= 6*limit + 2 MiB + 40*len(wire) (io.ReadAll's 1.25x buffer growth allocates about 5.06*(limit+1) bytes in total on the unchanged code, so the 4*limit bound of the design is not attainable); the memory the flate reader itself uses (32 KiB window, Huffman tables) is part of the measured figure only",
                      "compression ratios above about 1030:1 do not exist for a single DEFLATE stream; 'beyond 1000:1' is covered as expansion relative to the limit (up to millions of times the limit)",
